@@ -119,7 +119,17 @@ def gen_cases(ctx, n):
         D = rng.choice([1, 2])
         st = G.tree_to_stack(G.shared_const_tree(rng, D), share=rng.random() < 0.7)
         cases.append(("shared constants", st, D))
-    return cases
+    # stale constant numbers: what crossover and command-copying mutation between parsed or already evaluated equations leave in
+    # the genome (each CONSTANT row is its own constant whatever number it carries; `_update` renumbers by stack order)
+    stale = []
+    for origin, st, D in cases:
+        if any(r[0] == G.CONSTANT for r in st) and rng.random() < 0.25:
+            st2 = [list(r) for r in st]
+            for r in st2:
+                if r[0] == G.CONSTANT:
+                    r[1] = r[2] = rng.choice([0, 0, 1, 2, -1])
+            stale.append((origin + ", stale constant numbers", st2, D))
+    return cases + stale
 
 
 def py_reduce(stack):
